@@ -131,6 +131,20 @@ partial def lstmtsOf (env : Env) (inForeach : Bool) (j : Json) : Except String (
           pure (l.elems.map Expr.fld)              -- `_add_list_elems`: every element field
         else pure [← lexprOf env e]
       pure [.unique es.flatten]
+  | "unique_vec" => do
+      let ls ← (← getA j "ls").mapM fun x => do
+        match env.lists[(← x.getNat?)]? with | some l => pure l | none => throw "no such list"
+      if env.forRefs then
+        -- the statement mentions every element of every vector, vector by vector
+        pure [.unique (ls.flatMap fun l => l.elems.map Expr.fld)]
+      else
+        match ls with
+        | [] => throw "unique_vec: no vectors"
+        | l0 :: _ =>
+          if ls.any fun l => l.elems.length != l0.elems.length then throw "unique_vec: sizes differ"
+          else match uniqueVec (ls.map (·.elems)) with
+            | some e => pure [.expr e]
+            | none => pure [.expr (.reset (.lit 0 false 1))]      -- empty vectors are equal to each other
   | "implies" => do
       let body ← lbody env inForeach (← getA j "b")
       pure [.implies (← lexprOf env (← j.getObjVal? "c")) (Lists.scopeOf body)]
